@@ -377,6 +377,19 @@ def next_rules(run, r_sel, r_always, ast):
                 run.violation(r_sel, "compiler::build_dispatch_tables|candidate-gathering", "the candidates for next are %s: next must be chosen among ALL definitions that are strictly more general in every position" % (
                     "also gathered by `%s`" % astq.text(extra[0])[:70] if extra else "only gathered under a condition" if cond else "not gathered by a copy_if over is_base"), (f["file"], (extra or cond or [bestcall])[0]["l"]))
         if len(calls) == 1:
+            # the filter is that call and nothing else: a pre-filter in front of it drops candidates the property counts
+            lam = [x for x in astq.walk(comp) if x.get("k") == "LambdaExpr" and any(y is calls[0] for y in astq.walk(x))]
+            if lam:
+                bodies = [(sp if sp.get("k") else sp.get("body")) for sp in (lam[0]["lambda"].get("specializations") or [])] or [lam[0]["lambda"].get("body")]
+                for bd in bodies:
+                    sts = [x for x in (bd.get("c") or []) if x.get("k") != "NullStmt"]
+                    only = len(sts) == 1 and sts[0].get("k") == "ReturnStmt" and sts[0].get("c") and astq.strip(sts[0]["c"][0]) is calls[0]
+                    rets = [x for x in astq.walk(bd) if x.get("k") == "ReturnStmt"]
+                    run.instance(r_sel, "%s: the candidate filter is exactly is_base(d, &this definition)" % short(f), (f["file"], calls[0]["l"]), ok=bool(only))
+                    if not only:
+                        extra = [x for x in rets if not (x.get("c") and astq.strip(x["c"][0]) is calls[0])]
+                        run.violation(r_sel, "compiler::build_dispatch_tables|candidate-prefilter", "the candidate filter returns before / besides is_base (`%s`): strictly more general definitions can be rejected" % (
+                            astq.text(extra[0]["c"][0])[:60] if extra and extra[0].get("c") else "other statements"), (f["file"], (extra or [calls[0]])[0]["l"]))
             a0, a1 = astq.strip(calls[0]["c"][1]), astq.strip(calls[0]["c"][2])
             okf = a0.get("k") == "DeclRefExpr" and a0["ref"].get("storage") == "param" and a1.get("k") == "UnaryOperator" and a1.get("op") == "&" and \
                 astq.strip(a1["c"][0]).get("k") == "DeclRefExpr" and astq.strip(a1["c"][0])["ref"]["did"] == spec_did
@@ -518,6 +531,36 @@ def lookup_rules(run, r_proj, r_null, ast):
                 run.instance(r_proj, "%s: class_map keyed by %s" % (short(f), astq.text(key)), (f["file"], s["l"]), ok=ok)
                 if not ok:
                     run.violation(r_proj, "compiler::%s|class_map-key" % f["name"].split("::")[-1], "class_map is accessed with key %s, not with Policy::type_index(id)" % astq.text(key), (f["file"], s["l"]))
+        if r_proj:
+            # class identity is decided on classes (entries of class_map, i.e. after projection), never by comparing raw ids:
+            # two different ids may be the same class
+            raw = []
+            for n in astq.walk(f["body"]):
+                if n.get("k") == "BinaryOperator" and n.get("op") in ("==", "!="):
+                    sides = [astq.strip(x) for x in n["c"]]
+                    def is_id(x):
+                        if x.get("k") == "MemberExpr" and x.get("member") == "type" and "class_info" in ((astq.strip(x["c"][0]).get("t") or "") if x.get("c") else ""):
+                            return True
+                        if x.get("k") == "UnaryOperator" and x.get("op") == "*" and re.search(r"(unsigned long|type_id)\s*$", (x.get("t") or "unsigned long")) and any(
+                                y.get("k") == "MemberExpr" and y.get("member") in ("first_base", "last_base", "vp_begin", "vp_end") for y in astq.walk(x)):
+                            return True
+                        if x.get("k") == "DeclRefExpr" and x["ref"].get("storage") == "local":
+                            return False
+                        return False
+                    if any(is_id(x) for x in sides):
+                        raw.append(n)
+            # iterators initialised from first_base / vp_begin and dereferenced
+            its = {d["did"] for n in astq.walk(f["body"]) if n.get("k") == "DeclStmt" for d in n["decls"] if d.get("init") is not None and any(
+                y.get("k") == "MemberExpr" and y.get("member") in ("first_base", "vp_begin") for y in astq.walk(d["init"]))}
+            for n in astq.walk(f["body"]):
+                if n.get("k") == "BinaryOperator" and n.get("op") in ("==", "!=") and n not in raw:
+                    for x in (astq.strip(y) for y in n["c"]):
+                        if x.get("k") == "UnaryOperator" and x.get("op") == "*" and astq.strip(x["c"][0]).get("k") == "DeclRefExpr" and astq.strip(x["c"][0])["ref"].get("did") in its:
+                            raw.append(n)
+                            break
+            run.instance(r_proj, "%s: classes are told apart by their class_map entry, never by comparing raw type ids" % short(f), (f["file"], f["line"]), ok=not raw)
+            for n in raw:
+                run.violation(r_proj, "compiler::%s|raw-id-comparison" % f["name"].split("::")[-1], "`%s` compares raw type ids: with a many-to-one type_index two different ids can be the same class" % astq.text(n)[:80], (f["file"], n["l"]))
         if not r_null:
             continue
         # by-value look-ups: `auto x = class_map[...]` with x a pointer
@@ -576,6 +619,36 @@ def lookup_rules(run, r_proj, r_null, ast):
 
 # ---------------------------------------------------------------------------
 # (5) control-dependence whitelists in augment_classes
+
+def _cond_toward(cfg, x, b, cn):
+    """canonical form of the condition of branch block x that holds when control goes on towards block b
+    (None when both or neither outcome lead there)"""
+    if cn is None:
+        return None
+    taken = cfg.branch_taken(x, b)
+    # b may depend on x through intermediate branch blocks (a loop header between them): follow the chain
+    frontier, seen = [b], {b}
+    for _ in range(5):
+        if taken:
+            break
+        nxt = []
+        for t in frontier:
+            for y in cfg.control_deps(t):
+                if y != x and y not in seen:
+                    seen.add(y)
+                    nxt.append(y)
+        for y in nxt:
+            taken = cfg.branch_taken(x, y)
+            if taken:
+                break
+        frontier = nxt
+    cf = astq.canon(cn)
+    if taken == [0]:
+        return cf
+    if taken == [1]:
+        return cf[1] if cf[0] == "not" else ("not", cf)
+    return None
+
 
 def _cdep_conds(f, node):
     cfg = astq.Cfg(f)
@@ -1002,9 +1075,36 @@ def hash_rules(run, r_accept, r_same, r_publish, r_checked, r_allids, ast):
                         atoms.add((astq.text(c0["c"][1]), False))
                     else:
                         atoms.add((astq.text(c0), pol))
-                texts = {t for t, pol in atoms if not pol}
-                r1 = any(re.search(r"index >= .*hash_length", t) for t in texts)
-                r2 = any(re.search(r"control\[index\] != type|operator\[\]\(control, index\) != type|\[\]\(.*control.*index\) != type", t) for t in texts)
+                # facts established on this path, from the structure of the guards (not their text)
+                idx_did = idxv[0]["did"]
+                type_did = f["params"][0]["did"]
+                facts = set()
+
+                def flat(cn, pol):
+                    c0 = astq.strip(cn)
+                    if c0.get("k") == "BinaryOperator" and c0.get("op") == "||" and not pol:
+                        flat(c0["c"][0], False)
+                        flat(c0["c"][1], False)
+                    elif c0.get("k") == "BinaryOperator" and c0.get("op") == "&&" and pol:
+                        flat(c0["c"][0], True)
+                        flat(c0["c"][1], True)
+                    elif c0.get("k") == "UnaryOperator" and c0.get("op") == "!":
+                        flat(c0["c"][0], not pol)
+                    elif c0.get("k") == "BinaryOperator" and c0.get("op") in ("<", "<=", "==", "!="):
+                        a, b = astq.strip(c0["c"][0]), astq.strip(c0["c"][1])
+                        is_idx = lambda x: x.get("k") == "DeclRefExpr" and x["ref"].get("did") == idx_did
+                        is_len = lambda x: (astq.refname(x) or "").split("::")[-1] == "hash_length"
+                        is_ctl = lambda x: x.get("k") == "CXXOperatorCallExpr" and x.get("oop") == "[]" and (astq.refname(x["c"][1]) or "").endswith("::control") and is_idx(astq.strip(x["c"][2]))
+                        is_typ = lambda x: x.get("k") == "DeclRefExpr" and x["ref"].get("did") == type_did
+                        if c0["op"] == "<" and is_idx(a) and is_len(b) and pol:
+                            facts.add("in-range")
+                        if c0["op"] == "<=" and is_len(a) and is_idx(b) and not pol:
+                            facts.add("in-range")
+                        if c0["op"] in ("==", "!=") and ((is_ctl(a) and is_typ(b)) or (is_ctl(b) and is_typ(a))) and pol == (c0["op"] == "=="):
+                            facts.add("same-id")
+                for cn, pol in p["guards"]:
+                    flat(cn, pol)
+                r1, r2 = "in-range" in facts, "same-id" in facts
                 if not (r1 and r2):
                     ok = False
                     why = "a path returns the index without both the range test and the identity test failing (guards: %s)" % sorted(atoms)
@@ -1410,13 +1510,13 @@ def reserve_rules(run, rule, ast):
                 mems = {y.get("member") for y in astq.walk(cn) if y.get("k") == "MemberExpr"}
                 if {"mark", "class_mark"} <= mems and any(y.get("k") == "DeclRefExpr" and y["ref"]["did"] == cls_param for y in astq.walk(c0)) and not _enclosing(parent, cn, ("CXXForRangeStmt", "ForStmt")):
                     continue                                   # visited check of the class itself at function entry
-                cf = astq.canon(cn)
+                cf = _cond_toward(cfg, x, b, cn) or astq.canon(cn)
                 if cf[0] == "not" and cf[1][0] == "empty" and cf[1][1].endswith(".used_by_vp") and mems <= {"used_by_vp", "empty", "size"} and any(y.get("k") == "DeclRefExpr" and y["ref"]["did"] == cls_param for y in astq.walk(c0)):
                     continue                                   # class has virtual parameters
-                if c0.get("k") == "BinaryOperator" and c0.get("op") == "!=" and any(y.get("k") == "DeclRefExpr" and y["ref"]["did"] == cls_param for y in astq.walk(c0)):
+                if cf[0] == "not" and cf[1][0] == "eq" and any(y.get("k") == "DeclRefExpr" and y["ref"]["did"] == cls_param for y in astq.walk(c0)):
                     loops = _enclosing(parent, c, ("CXXForRangeStmt",))
                     if any(any(y.get("k") == "DeclRefExpr" and y["ref"]["did"] == lp["var"]["did"] for y in astq.walk(c0)) for lp in loops):
-                        continue                               # the class itself among its covariant classes
+                        continue                               # the class itself among its covariant classes (the step runs for all the others)
                 if _enclosing(parent, cn, ("ForStmt",)) and not any(y.get("k") == "MemberExpr" for y in astq.walk(cn) if y.get("member") in ("mark", "direct_bases", "direct_derived", "transitive_bases", "covariant_classes")):
                     continue                                   # search for the first free slot (a plain for loop over a local bit set)
                 if c0.get("k") == "CXXOperatorCallExpr" and c0.get("oop") == "[]" or (c0.get("k") == "UnaryOperator" and any(y.get("k") == "CXXOperatorCallExpr" and y.get("oop") == "[]" for y in astq.walk(c0)) and _enclosing(parent, cn, ("ForStmt",))):
@@ -2396,3 +2496,47 @@ def enum_rules(run, rule, ast):
             run.violation(rule, "static_list::size", "size() returns `%s`" % astq.text(e)[:80], (f["file"], f["line"]))
     if n_seen < 8:
         run.broken.append("catalog enumeration functions: only %d recognised" % n_seen)
+
+
+
+# ---------------------------------------------------------------------------
+# (17) update's phases
+
+PHASES = ["resolve_static_type_ids", "augment_classes", "augment_methods", "assign_slots", "build_dispatch_tables"]
+
+
+def phase_rules(run, rule, ast):
+    """compile() runs every phase, in order, unconditionally (an empty or partial registry is no excuse: the unknown-class
+    diagnostics, the hash search and the installation all live in them); update() compiles, then installs."""
+    for f in by_name(ast, "compile"):
+        byid, parent = astq.index_nodes(f)
+        calls = [n for n in astq.walk(f["body"]) if n.get("k") == "CXXMemberCallExpr" and re.search(r"compiler<.*>::(%s)$" % "|".join(PHASES), n.get("callee") or "")]
+        names = [re.search(r"::(\w+)$", n["callee"]).group(1) for n in calls]
+        cond = [n for n in calls if _enclosing(parent, n, ("IfStmt", "ForStmt", "WhileStmt", "CXXForRangeStmt", "SwitchStmt", "ConditionalOperator"))]
+        ok = names == PHASES and not cond
+        run.instance(rule, "%s: every phase of update runs, in order, unconditionally" % short(f), (f["file"], f["line"]), ok=ok)
+        if cond:
+            g = _enclosing(parent, cond[0], ("IfStmt", "ForStmt", "WhileStmt", "CXXForRangeStmt", "SwitchStmt", "ConditionalOperator"))[0]
+            run.violation(rule, "compiler::compile|conditional-phase", "%s only runs depending on `%s`: what that phase diagnoses or (re)builds is skipped for such a registry" % (
+                re.search(r"::(\w+)$", cond[0]["callee"]).group(1), astq.text(g.get("cond"))[:80] if g.get("cond") else g.get("k")), (f["file"], cond[0]["l"]))
+        elif not ok:
+            run.violation(rule, "compiler::compile|phases", "compile() calls %s; expected %s" % (names, PHASES), (f["file"], f["line"]))
+    for f in by_name(ast, "update"):
+        byid, parent = astq.index_nodes(f)
+        calls = [n for n in astq.walk(f["body"]) if n.get("k") == "CXXMemberCallExpr" and re.search(r"compiler<.*>::(compile|install_global_tables)$", n.get("callee") or "")]
+        names = [re.search(r"::(\w+)$", n["callee"]).group(1) for n in calls]
+        cond = [n for n in calls if _enclosing(parent, n, ("IfStmt", "ForStmt", "WhileStmt", "CXXForRangeStmt", "SwitchStmt", "ConditionalOperator"))]
+        ok = names == ["compile", "install_global_tables"] and not cond
+        run.instance(rule, "%s: update compiles, then installs, unconditionally" % short(f), (f["file"], f["line"]), ok=ok)
+        if not ok:
+            run.violation(rule, "compiler::update|phases", "update() calls %s%s; expected compile then install_global_tables, unconditionally" % (names, " (conditionally)" if cond else ""), (f["file"], f["line"]))
+    for f in by_name(ast, "install_global_tables"):
+        byid, parent = astq.index_nodes(f)
+        calls = [n for n in astq.walk(f["body"]) if n.get("k") == "CXXMemberCallExpr" and re.search(r"compiler<.*>::install_gv$", n.get("callee") or "")]
+        ok = len(calls) == 1
+        if ok:
+            gs = _enclosing(parent, calls[0], ("IfStmt", "ForStmt", "WhileStmt", "CXXForRangeStmt"))
+            ok = not gs
+        run.instance(rule, "%s: the tables are installed whenever compilation is done" % short(f), (f["file"], f["line"]), ok=ok)
+        if not ok:
+            run.violation(rule, "compiler::install_global_tables|install", "install_gv is not called exactly once, unconditionally", (f["file"], f["line"]))
